@@ -166,7 +166,7 @@ def run_layouts(rep: Report, tier: str) -> None:
 
     rep.kernel("mypy.find_sources", symx.source_hash(FS.__file__))
     rep.kernel("mypy.modulefinder", symx.source_hash(MF.__file__))
-    depth = 2 if tier == "quick" else 3
+    depth = 2  # thorough keeps the depth-2 universe but names files at every depth of it (depth 3 does not finish: stated in DESIGN)
     files, dirs = universe(depth)
     cand = sorted(f for f in files if os.path.dirname(f) != ROOT or not os.path.basename(f).startswith("__init__"))
     if tier == "quick":
@@ -536,7 +536,7 @@ def check_f_abspath(rep: Report) -> None:
 def main(args: Any) -> int:
     rep = Report(PID, args.tier, "symbolic execution of the real SourceFinder and FindModuleCache against a symbolic file system (existence answers are z3 booleans under sanity constraints); the solver explores every layout the implementations distinguish; replay on a materialised directory tree")
     rep.bounds += [
-        "names {xa, xb}; files name.py / name.pyi / __init__.py[i]; directory depth 2 (quick) / 3 (thorough) below the root; one or two named files; namespace_packages and explicit_package_bases symbolic",
+        "names {xa, xb}; files name.py / name.pyi / __init__.py[i]; directory depth 2 below the root; one or two named files; namespace_packages and explicit_package_bases symbolic",
     ]
     rep.assumptions += [
         "file-system sanity: a path exists only inside existing directories; case-insensitive file systems, symlinks, -stubs packages and site-packages are outside",
